@@ -249,8 +249,8 @@ def proj_violation(pid, what, p, oi, om, found=True, extra=None):
     return {"found": found, "replay": r}
 
 # ------------------------------------------------------------------ digraph x inputs x schedules (C02, C03, C05)
-NAMES3 = ["/a.txt.txtpp", "/b.txtpp.md", "/sub/c.txtpp"]
-NAMES4 = NAMES3 + ["/sub/d.txt.txtpp"]
+NAMES3 = ["/a.txt.txtpp", "/b.v1.txtpp.md", "/sub/c.txtpp"]      # a dotted stem in the second source-name form (get_txtpp_file candidates)
+NAMES4 = NAMES3 + ["/sub/d.e.txt.txtpp"]
 
 def rel_from(frm, to):
     fd = [x for x in frm.split("/")[1:-1]]; td = to.split("/")[1:]
@@ -324,28 +324,47 @@ def can_reach_cycle(v, edges):
     on_cycle = {x for x in set(a for a, _ in edges) | set(b for _, b in edges) if x in reach(x)}
     return v in on_cycle or bool(reach(v) & on_cycle)
 
+def tree_dirs(p):
+    """all directories of a project's tree (ancestors of its files, plus the declared ones, plus the root)"""
+    ds = {"/"}
+    for f in [x for (x, _) in p.files] + [d.rstrip("/") + "/." for d in getattr(p, "dirs", [])]:
+        parts = f.split("/")[1:-1]
+        for i in range(1, len(parts) + 1): ds.add("/" + "/".join(parts[:i]))
+    return ds
+
+SCHEDULE_SAFETY_CAP = 1500   # no project of the sweeps has more than a few hundred completion orders on a correct tree
+
 def enumerate_schedules(projs, max_per=None):
     """all completion orders of each project: breadth-first over the controller's choice points, using the
-    implementation's own report of how many tasks were pending at each choice"""
+    implementation's own report of how many tasks were pending at each choice. A per-project safety cap keeps a broken
+    implementation (one that spawns more tasks than the model allows) from exploding the search: the runs made so far are
+    compared with the model anyway and show the divergence."""
     done = []   # (project index, schedule, impl line)
     frontier = [(k, []) for k in range(len(projs))]
     counts = collections.Counter()
+    cap = SCHEDULE_SAFETY_CAP if max_per is None else min(max_per, SCHEDULE_SAFETY_CAP)
     while frontier:
         batch = []
         for k, sched in frontier:
             q = projs[k].copy(); q.sched = list(sched); q.id = "%s.%d" % (projs[k].id, len(batch)); batch.append(q)
         outs = run_impl([q.text() for q in batch])
-        nxt = []
+        nxt = []; queued = collections.Counter()
         for (k, sched), q, line in zip(frontier, batch, outs):
             o = parse_obs(line)
             ns = [int(x) for x in o["N"].split(",") if x]
             full = list(sched) + [0] * (len(ns) - len(sched))
             q.sched = full
             done.append((k, q, o)); counts[k] += 1
+            # history_bound (props/C03): a run makes at most 2*|.txtpp files| + |directories| tasks. A run with more choice
+            # points than that is already outside the model (the comparison below reports it): do not branch on it.
+            nsrc = sum(1 for (f, _) in projs[k].files if ".txtpp" in f.rsplit("/", 1)[-1])
+            if len(ns) > 2 * nsrc + len(tree_dirs(projs[k])) + 2:
+                o["N"] = ",".join(str(x) for x in ns[:64]); o["T"] = o.get("T", "")[:4000]; o["raw"] = o["raw"][:4000]
+                continue
             for i in range(len(sched), len(ns)):
                 for c in range(1, ns[i]):
-                    if max_per is None or counts[k] + sum(1 for (kk, _) in nxt if kk == k) < max_per:
-                        nxt.append((k, full[:i] + [c]))
+                    if counts[k] + queued[k] < cap:
+                        nxt.append((k, full[:i] + [c])); queued[k] += 1
         frontier = nxt
     return done
 
@@ -432,10 +451,21 @@ def random_large_graphs(rng, n, after=False):
             out.append(q)
     return out
 
+def idle_variants(runs, every):
+    """every `every`-th run of a sweep once more with idle polls: before each completion the coordinator polls an empty queue
+    (a worker slower than the coordinator). Stuttering steps: the model's prediction for the schedule is unchanged."""
+    sel = []
+    for n, (k, q, o) in enumerate(runs):
+        if n % every == 0 and len(o.get("N", "")) < 200:
+            q2 = q.copy(); q2.idle = True; q2.id = q.id + ".idle"; sel.append((k, q2))
+    outs = run_impl([q.text() for (_, q) in sel])
+    return [(k, q, parse_obs(line)) for (k, q), line in zip(sel, outs)]
+
 def run_sweep(tier_, after=False, cap=None):
     projs = sweep_cases(tier_, after)
     complete_oracles(projs)
     runs = enumerate_schedules(projs, max_per=cap)
+    runs = runs + idle_variants(runs, 40 if tier_ == "quick" else 4)
     if tier_ != "quick":
         big = random_large_graphs(Rng(seed()).fork("big%s" % after), 1200, after)
         complete_oracles(big)
@@ -532,7 +562,7 @@ def check_C03(tier_, sd, consts_ok, consts_detail):
     for k in range(60 if tier_ == "quick" else 400):
         edges = [(0, 1), (0, 2), (1, 2)] if k % 2 else [(0, 1)]
         q = digraph_project("dup%d" % k, NAMES3, edges, [0])
-        alias = ["a.txt", "a.txt.txtpp", "./a.txt", "sub/../a.txt", ".", "sub", "b.md", "b.txtpp.md", "sub/c", "./sub/./c.txtpp"]
+        alias = ["a.txt", "a.txt.txtpp", "./a.txt", "sub/../a.txt", ".", "sub", "b.v1.md", "b.v1.txtpp.md", "sub/c", "./sub/./c.txtpp"]
         q.inputs = [rng.choice(alias) for _ in range(2 + rng.below(5))]
         q.recursive = rng.chance(1, 2)
         q.sched = [rng.below(5) for _ in range(16)]
@@ -1024,6 +1054,9 @@ def check_C06(tier_, sd, consts_ok, consts_detail):
                 q.inputs = [r.choice(p.srcs).lstrip("/")]; q.recursive = False
                 expect_fail = None if expect_fail else expect_fail
             q.sched = [r.below(6) for _ in range(30)]
+            # on two variants per project the coordinator also polls an EMPTY queue before every completion (a worker that is
+            # slower than the coordinator's poll): the verdict of a task still in flight must not be lost
+            q.idle = v in (1, 2)
             steps.append(q); meta.append((k, what, expect_fail))
     oi, om = both(steps)
     violations = []; verd = collections.Counter(); nontriv = set()
@@ -1045,7 +1078,7 @@ def check_C06(tier_, sd, consts_ok, consts_detail):
     cov = {"evaluations": len(steps) + ngen, "distinct_nontrivial": len(nontriv),
            "rule": "generated projects are built, then verified after: nothing / deleting an output / one-byte flip, insertion, deletion, truncation, extension, emptying of an output (requested file or dependency) / flipping the trailing-newline option; "
                    "observed: verdict, and bytes + mtime + inode of every output before vs after; distinct_nontrivial = distinct (project, tampering)",
-           "built_projects": len(built), "verdicts_by_tampering": {"%s/%s" % k: v for k, v in verd.items()},
+           "built_projects": len(built), "runs_with_idle_polls": sum(1 for q in steps if getattr(q, "idle", False)), "verdicts_by_tampering": {"%s/%s" % k: v for k, v in verd.items()},
            "samples": [{"tamper": meta[1][1], "verdict": oi[1]["verdict"]}]}
     xcheck(cov, violations, "C06", steps, om)
     return {"coverage": cov, "violations": violations}
@@ -1337,7 +1370,21 @@ def check_C10(tier_, sd, consts_ok, consts_detail):
         if a["U"] != b["U"] and len(violations) < 5:
             violations.append(proj_violation("C10", "set of touched paths differs from the model: impl %s, model %s" % (a["U"], b["U"]), p, a, b, found=False))
         if a["U"]: nontriv.add((p.mode, tuple(a["U"])))
-    cov = {"evaluations": len(projs) + len(pre), "distinct_nontrivial": len(nontriv),
+    # the binary: a subcommand fixes the mode whatever top-level flags precede it (verify and clean never write), and the decoys stay
+    src = {"a.txt.txtpp": "x\n-TXTPP#temp t.tmp\n-body\ny\n", "a.txt": "stale", "keep.md": "decoy", "sub/b.txtpp": "b\n", "sub/b": "old b"}
+    ses = cli_session(src, [["-N", "-q", "verify", "-q", "a.txt"], ["-N", "verify", "-q", "-r"], ["-N", "-n", "clean", "-q", "sub"], ["-N", "clean", "-q", "-r"], ["-N", "verify", "-q", "-r"]])
+    t0 = {k: (v if isinstance(v, bytes) else v.encode()) for k, v in src.items()}
+    def untouched(step, names_): return all(ses[step][1].get(n_) == t0[n_] and ses[step][2].get(n_) == 946684800 * 10**9 for n_ in names_)
+    cli_ok = [ses[0][0] == 1 and untouched(0, ["a.txt", "keep.md", "sub/b", "a.txt.txtpp"]),
+              ses[1][0] == 1 and untouched(1, ["a.txt", "keep.md", "sub/b"]),
+              ses[2][0] == 0 and "sub/b" not in ses[2][1] and untouched(2, ["a.txt", "keep.md", "sub/b.txtpp"]) and "t.tmp" not in ses[2][1],
+              ses[3][0] == 0 and sorted(ses[3][1]) == ["a.txt.txtpp", "keep.md", "sub/b.txtpp"],
+              ses[4][0] == 1 and sorted(ses[4][1]) == ["a.txt.txtpp", "keep.md", "sub/b.txtpp"]]
+    if not all(cli_ok) and len(violations) < 6:
+        violations.append({"found": True, "replay": {"property": "C10", "what": "the binary wrote or removed something a verify/clean subcommand must not touch (top-level -N/-n before the subcommand)",
+                           "steps": "-N -q verify a.txt (stale: exit 1, nothing touched); -N verify -r; -N -n clean sub (removes sub/b only); -N clean -r (removes a.txt, creates nothing); -N verify -r (missing outputs: exit 1, creates nothing)",
+                           "steps_ok": cli_ok, "exits": [x[0] for x in ses], "trees": [sorted(x[1]) for x in ses]}})
+    cov = {"evaluations": len(projs) + len(pre) + len(ses), "distinct_nontrivial": len(nontriv), "cli_subcommand_steps_ok": cli_ok,
            "rule": "generated projects (successful and failing) x modes {build, needed, clean, verify} x input selections x recursive flag, half of them on an already built tree, with decoy files next to sources, in sub-directories and at near-miss names; "
                    "full-tree snapshot (bytes, inode, mtime) before/after: every touched path must be an output of a source of the project or a temp target, every other file keeps its bytes; clean creates nothing; verify touches no output; "
                    "the touched set must equal the model's event log; distinct_nontrivial = distinct (mode, touched set)",
@@ -1345,6 +1392,8 @@ def check_C10(tier_, sd, consts_ok, consts_detail):
            "samples": [{"mode": projs[3].mode, "touched": oi[3]["U"]}]}
     xcheck(cov, violations, "C10", projs, om)
     return {"coverage": cov, "violations": violations}
+
+check_C10.needs_cli = True
 
 # ------------------------------------------------------------------ C11 inputs and names
 # q.txt.txtpp and q.txtpp.txt are two DIFFERENT sources that happen to share the output name q.txt: both must be processed
@@ -1703,7 +1752,7 @@ def check_C04(tier_, sd, consts_ok, consts_detail):
     rng = Rng(sd).fork("C04")
     names = NAMES4
     shapes = [[(0, 1), (1, 2), (2, 3)], [(0, 1), (0, 2), (1, 3), (2, 3)], [(0, 1), (2, 3)], []]
-    faults = ["bad-directive", "failing-command", "missing-include", "include-directory", "output-is-directory", "temp-is-directory", "temp-txtpp", "tag-unused", "tag-twice", "invalid-utf8", "verify-mismatch"]
+    faults = ["bad-directive", "failing-command", "killed-command", "missing-include", "include-directory", "output-is-directory", "temp-is-directory", "temp-txtpp", "tag-unused", "tag-twice", "invalid-utf8", "verify-mismatch"]
     projs = []; meta = []
     k = 0
     for edges in shapes:
@@ -1716,6 +1765,7 @@ def check_C04(tier_, sd, consts_ok, consts_detail):
                     tag = src.split("/")[-1].split(".")[0]
                     inj = {"bad-directive": b"TXTPP#run no prefix on a multi-line directive\n",
                            "failing-command": b"%TXTPP#run exit 3\n\n",
+                           "killed-command": b"%TXTPP#run printf 'half\\n'; kill -9 $$\n\n",     # the shell dies by a signal: no exit code at all
                            "missing-include": b"%TXTPP#include no_such_file.txt\n",
                            "include-directory": b"%TXTPP#include .\n",
                            "temp-is-directory": b"%TXTPP#temp adir\n%x\n\n",
